@@ -2,8 +2,16 @@
 // cross_chain_manager/eth deposit proofs). Each family lives in its own file and registers itself in `families`.
 package main
 
-import "polyverif/internal/hx"
+import (
+	"os"
+
+	"github.com/polynetwork/poly/common/log"
+	"polyverif/internal/hx"
+)
 
 var families = map[string]func() hx.Family{}
 
-func main() { hx.Main(families) }
+func main() {
+	log.InitLog(log.FatalLog, os.Stderr) // the contracts log warnings (e.g. "header has exist") to stdout by default
+	hx.Main(families)
+}
